@@ -31,6 +31,10 @@ type vconn struct {
 	onWrite func(c *vconn, p []byte) error // called with the whole buffer before it is accepted
 	nClose  int
 	nRead   int // bytes handed to the client
+	id           int
+	hook         *vbroker // broker model processing every write attempt
+	nInjected    int
+	signalLocked bool // a signal is due once the atomic section is left
 }
 
 func newVconn(name string) *vconn {
@@ -69,6 +73,23 @@ func (c *vconn) Read(p []byte) (int, error) {
 
 func (c *vconn) Write(p []byte) (int, error) {
 	verifLock()
+	if c.hook != nil {
+		err := c.hook.attempt(c, p, c.closed || c.eof)
+		c.writes = append(c.writes, vconnWrite{append([]byte{}, p...), err != nil})
+		sig := c.signalLocked
+		c.signalLocked = false
+		if err == nil {
+			c.wire = append(c.wire, p...)
+		}
+		verifUnlock()
+		if sig {
+			c.signal()
+		}
+		if err != nil {
+			return 0, err
+		}
+		return len(p), nil
+	}
 	if c.closed || c.eof {
 		c.writes = append(c.writes, vconnWrite{append([]byte{}, p...), true})
 		verifUnlock()
@@ -113,6 +134,7 @@ func (c *vconn) Close() error {
 func (c *vconn) inject(b []byte) {
 	verifLock()
 	c.rbuf = append(c.rbuf, b...)
+	c.nInjected += len(b)
 	verifUnlock()
 	c.signal()
 }
